@@ -917,6 +917,43 @@ def _uniq_key(v):
     return v
 
 
+_NO_FALSY = object()
+
+
+def falsy_value(spec):  # noqa: PLR0911
+    """A canonical falsy value of the type (None / 0 / False / '' / empty container) or _NO_FALSY."""
+    s = strip(spec)
+    tag = s[0]
+    if tag == "optional" or tag == "none":
+        return None
+    if tag == "int":
+        return 0
+    if tag == "float":
+        return 0.0
+    if tag in ("str", "literalstring"):
+        return ""
+    if tag == "bool":
+        return False
+    if tag == "list":
+        return []
+    if tag in ("vtuple",) or (tag == "abc" and ABC_IMPL[s[1]] is tuple) or (tag == "tuple" and not s[1]):
+        return {"$": "t", "v": []}
+    if tag in ("dict", "mapping", "mutablemapping"):
+        return {"$": "d", "v": []}
+    if tag == "set" or (tag == "abc" and ABC_IMPL[s[1]] is set):
+        return {"$": "set", "v": []}
+    if tag == "frozenset" or (tag == "abc" and ABC_IMPL[s[1]] is frozenset):
+        return {"$": "fset", "v": []}
+    if tag in ("bytes", "bytestring"):
+        return {"$": "bytes", "h": ""}
+    if tag == "union":
+        for c in s[1]:
+            v = falsy_value(c)
+            if v is not _NO_FALSY:
+                return v
+    return _NO_FALSY
+
+
 @st.composite
 def _st_model_value(draw, spec, models, budget, min_size=0):
     ms = spec[1]
@@ -925,6 +962,11 @@ def _st_model_value(draw, spec, models, budget, min_size=0):
         d = f.get("d")
         if d is not None and draw(st.integers(0, 2)) == 0:
             continue  # leave the default in place / NotRequired key absent
+        if d is not None and draw(st.integers(0, 3)) == 0:
+            fv = falsy_value(f["t"])       # a falsy value that is (usually) not the default: omit_default territory
+            if fv is not _NO_FALSY:
+                fields[f["n"]] = fv
+                continue
         fields[f["n"]] = draw(st_value(f["t"], models, budget, min_size))
     return {"$": "obj", "c": ms["name"], "f": fields}
 
